@@ -181,6 +181,73 @@ def run(prog: Program, L: Ledger) -> None:
             pre_stmts.append(st)
     pre_guards = [st for st in pre_stmts if isinstance(st, ast.If)]
 
+    # A per-run filter: `key in self.A` where irun stores A = {key for key, obs in <observer table> if cond(obs, steps)}.
+    # The membership test is replaced by cond evaluated on the observer at hand; the length of the run call and the step it
+    # started from become quantities of the domain (the schedule does not depend on either).
+    import copy as _copy
+
+    run_filter = [False]
+    key_var = loop.target.elts[0].id if isinstance(loop.target, ast.Tuple) and len(loop.target.elts) == 2 and isinstance(loop.target.elts[0], ast.Name) else None
+    irun_params = irun.params()
+    steps_name = irun_params[1] if len(irun_params) > 1 else None
+
+    def _filter_cond(attr: str, probe: ast.expr):
+        defs = [st_ for st_ in walk_no_nested(irun.node) if isinstance(st_, (ast.Assign, ast.AnnAssign)) and getattr(st_, "value", None) is not None
+                and any(norm(t_) == f"self.{attr}" for t_ in (st_.targets if isinstance(st_, ast.Assign) else [st_.target]))]
+        if len(defs) != 1:
+            return None
+        v = defs[0].value
+        if isinstance(v, ast.Call) and norm(v.func) in ("frozenset", "set", "tuple", "list") and len(v.args) == 1:
+            v = v.args[0]
+        if not isinstance(v, (ast.GeneratorExp, ast.SetComp, ast.ListComp)) or len(v.generators) != 1:
+            return None
+        g = v.generators[0]
+        if "observers" not in norm(g.iter) or not isinstance(v.elt, ast.Name):
+            return None
+        tnames = [e_.id for e_ in (g.target.elts if isinstance(g.target, ast.Tuple) else [g.target]) if isinstance(e_, ast.Name)]
+        obs_name = tnames[-1]
+        # the probe must be the loop's counterpart of the collected element
+        if v.elt.id == obs_name:
+            if not (isinstance(probe, ast.Name) and probe.id == var):
+                return None
+        elif len(tnames) == 2 and v.elt.id == tnames[0]:
+            if not (isinstance(probe, ast.Name) and probe.id == key_var):
+                return None
+        else:
+            return None
+
+        class R(ast.NodeTransformer):
+            def visit_Name(self, n_):
+                if n_.id == obs_name:
+                    return ast.copy_location(ast.Name(id=var, ctx=ast.Load()), n_)
+                if n_.id == steps_name:
+                    return ast.copy_location(ast.Name(id="__run_steps", ctx=ast.Load()), n_)
+                return n_
+
+            def visit_Attribute(self, n_):
+                t_ = norm(n_)
+                if t_ == "self.step_count":
+                    return ast.copy_location(ast.Name(id="__run_start", ctx=ast.Load()), n_)
+                if t_ == "self.max_steps":
+                    return ast.copy_location(ast.BinOp(left=ast.Name(id="__run_start", ctx=ast.Load()), op=ast.Add(), right=ast.Name(id="__run_steps", ctx=ast.Load())), n_)
+                return self.generic_visit(n_)
+
+        conds = [R().visit(_copy.deepcopy(c_)) for c_ in g.ifs] or [ast.Constant(value=True)]
+        return conds[0] if len(conds) == 1 else ast.BoolOp(op=ast.And(), values=conds)
+
+    class _Member(ast.NodeTransformer):
+        def visit_Compare(self, n_):
+            if len(n_.ops) == 1 and isinstance(n_.ops[0], (ast.In, ast.NotIn)) and isinstance(n_.comparators[0], ast.Attribute) \
+                    and isinstance(n_.comparators[0].value, ast.Name) and n_.comparators[0].value.id == "self":
+                c_ = _filter_cond(n_.comparators[0].attr, n_.left)
+                if c_ is not None:
+                    run_filter[0] = True
+                    return ast.fix_missing_locations(ast.copy_location(c_ if isinstance(n_.ops[0], ast.In) else ast.UnaryOp(op=ast.Not(), operand=c_), n_))
+            return self.generic_visit(n_)
+
+    loop = ast.fix_missing_locations(_Member().visit(_copy.deepcopy(loop)))
+    pre_stmts = [ast.fix_missing_locations(_Member().visit(_copy.deepcopy(st_))) for st_ in pre_stmts]
+
     def fires(env) -> int:
         e2 = dict(env)
         count = [0]
@@ -201,7 +268,16 @@ def run(prog: Program, L: Ledger) -> None:
             for li in (1, 2, 3, 4):
                 # identity tests on the observer (`observer is self.default_logger`) are evaluated both ways
                 for same_logger in (True, False):
-                    domain.append({f"{var}.interval": i, "self.step_count": s, "self.logging_interval": li, var: _OBS, "self.default_logger": _OBS if same_logger else _OTHER})
+                    base_env = {f"{var}.interval": i, "self.step_count": s, "self.logging_interval": li, var: _OBS, "self.default_logger": _OBS if same_logger else _OTHER}
+                    if key_var:
+                        base_env[key_var] = "obs"
+                    if not run_filter[0]:
+                        domain.append(base_env)
+                    elif li == 1 and same_logger:
+                        # every run call [start, start + steps] that contains step s (start = 0 … s, lengths up to 9 beyond)
+                        for start in range(0, s + 1):
+                            for steps_ in range(s - start, min(s - start + 10, 22)):
+                                domain.append({**base_env, "__run_start": start, "__run_steps": steps_})
     bad = None
     try:
         for env in domain:
@@ -212,7 +288,8 @@ def run(prog: Program, L: Ledger) -> None:
             except Raises as r:
                 got = f"raises {r.what}"
             if got != want:
-                bad = (i, s, got, want, f", driver logging_interval={env['self.logging_interval']}" if pre_guards else "")
+                bad = (i, s, got, want, (f", driver logging_interval={env['self.logging_interval']}" if pre_guards else "")
+                       + (f", inside a run call of {env['__run_steps']} steps started at step {env['__run_start']}" if "__run_steps" in env else ""))
                 break
     except PredUnsupported as exc:
         raise AnalysisError(f"call_observers guard: {exc}") from exc
